@@ -31,7 +31,7 @@ func (chunkfault) Rule() string {
 		"damaged by a stored-medium fault so that 'same final error' is exercised). Reader side, for each of three caller programs " +
 		"(full traversal, top-level skip, seeded navigation): every two-chunk split point, byte-at-a-time, seeded random and " +
 		"boundary-biased plans (with empty reads and EOF-with-data variants), then a read failure at every byte offset 0..len in four " +
-		"variants (sticky/transient x with/without data x 3 error identities). Writer side, for each writer configuration (text, pretty, binary, binary " +
+		"variants (sticky/transient x with/without data x 3 error identities). One index in 16 adds a document holding a string / clob / blob of 4 KiB..200 000 bytes (last in the stream, followed by more, nested) read under chunk plans with pieces of 1000..100 000 bytes, end of data with or after the last bytes, and read failures at offsets around 4096, 8192, 65536 and the end. Writer side, for each writer configuration (text, pretty, binary, binary " +
 		"with fixed table): a write failure at every Write call in four variants (sticky/transient x accept nothing/short prefix). " +
 		"Documents over 600 bytes / 600 write calls have offsets sampled instead of enumerated. A case is distinct by hash of " +
 		"(stored bytes, delivery plan, fault, program) resp. (configuration, call sequence, fault); non-trivial = the fault fired " +
@@ -78,7 +78,109 @@ func errKindName(k string) string {
 
 var writeProbes = []drive.WOp{{Op: "int", V: model.NewInt(7)}, {Op: "finish"}, {Op: "finish"}}
 
+// largeValues is the sub-scenario for values far beyond the 4096-byte buffer and the 64 KiB mark: the per-byte
+// enumeration is replaced by chunk plans with large pieces (so that buffered and bypassing reads both occur), end of
+// data delivered with or after the last bytes, and read failures at sampled offsets around the interesting marks.
+func (s chunkfault) largeValues(c *Ctx, r *prng.Rand, text bool) {
+	n := []int{4095, 4096, 4097, 8192, 65535, 65536, 65537, 70000, 131073, 200000}[r.Intn(10)]
+	b := make([]byte, n)
+	for i := range b {
+		b[i] = 'a' + byte((i*7+n)%26)
+	}
+	var big *model.Value
+	switch r.Intn(3) {
+	case 0:
+		big = model.NewString(string(b))
+	case 1:
+		big = model.NewLob(model.Clob, b)
+	default:
+		for i := range b {
+			b[i] = byte(i*31 + n)
+		}
+		big = model.NewLob(model.Blob, b)
+	}
+	var vals []*model.Value
+	switch r.Intn(4) {
+	case 0: // the large value is the last thing in the stream
+		vals = []*model.Value{model.NewInt(1), big}
+	case 1:
+		vals = []*model.Value{big, model.NewInt(2)}
+	case 2:
+		vals = []*model.Value{model.NewSeq(model.List, model.NewInt(1), big), model.NewString("after")}
+	default:
+		vals = []*model.Value{model.NewSeq(model.Sexp, big, model.NewInt(3))}
+	}
+	var data []byte
+	if text {
+		data = render.Text(render.Values(vals), render.TextOpts{}).Bytes
+	} else {
+		data = render.Binary(render.Values(vals), render.BinOpts{Auto: true}).Bytes
+	}
+	c.Count("docs.large-value", 1)
+	for _, prog := range []drive.Program{drive.Full, drive.TopSkip} {
+		base := drive.RunRead(drive.ReadCase{Data: data, Plan: planWhole(), Prog: prog})
+		c.Steps += int64(base.Reads)
+		if base.Panic != "" || base.Spin {
+			continue
+		}
+		baseKey := base.Key()
+		var plans []sim.ReadPlan
+		pw := planWhole()
+		pw.EOFWithLast = true
+		plans = append(plans, pw)
+		for _, tail := range []int{1000, 4095, 4096, 4097, 8192, 32768, 65536, 100000} {
+			for _, eofWith := range []bool{false, true} {
+				p := sim.ReadPlan{Name: "large-chunks", Tail: tail, EOFWithLast: eofWith}
+				if r.Bool() {
+					p.Steps = []int{r.Range(1, 5000)}
+				}
+				plans = append(plans, p)
+			}
+		}
+		for j := 0; j < 6; j++ {
+			p := planRandom(r, 20000, false)
+			p.Tail = r.Range(2000, 70000)
+			p.EOFWithLast = r.Bool()
+			plans = append(plans, p)
+		}
+		for _, p := range plans {
+			rc := drive.ReadCase{Data: data, Plan: p, Prog: prog}
+			oc := drive.RunRead(rc)
+			c.Steps += int64(oc.Reads)
+			c.Count("r1.runs", 1)
+			c.Count("r1.large-value-runs", 1)
+			c.DistinctU(hashRead(data[:64], oc.SrcHash, prog))
+			s.checkRead(c, rc, oc, baseKey, "R1")
+		}
+		// read failures at sampled offsets
+		offs := []int{0, 3, 4, 5, 4095, 4096, 4097, 8191, 8192, 65535, 65536, 65537, len(data) - 4097, len(data) - 4096, len(data) - 2, len(data) - 1, len(data)}
+		for j := 0; j < 8; j++ {
+			offs = append(offs, r.Intn(len(data)+1))
+		}
+		for _, k := range offs {
+			if k < 0 || k > len(data) {
+				continue
+			}
+			for v := 0; v < 4; v++ {
+				p := sim.ReadPlan{Name: "large-chunks", Tail: []int{4096, 8192, 70000, 1000}[(k+v)%4]}
+				p.Fault = &sim.ReadFault{At: k, Sticky: v&1 == 1, WithData: v&2 == 2, ErrKind: readErrKinds[(k+v)%3]}
+				rc := drive.ReadCase{Data: data, Plan: p, Prog: prog}
+				oc := drive.RunRead(rc)
+				c.Steps += int64(oc.Reads)
+				c.Count("r2.runs", 1)
+				if oc.FaultFired {
+					c.Count("fault.read-in-large-value.fired", 1)
+				}
+				s.checkRead(c, rc, oc, baseKey, "R2")
+			}
+		}
+	}
+}
+
 func (s chunkfault) Run(c *Ctx, i int) {
+	if i%16 == 5 {
+		s.largeValues(c, prng.New(prng.Mix(c.Seed, 1919, uint64(i))), i%32 == 5)
+	}
 	r := prng.New(prng.Mix(c.Seed, 19, uint64(i)))
 	doc := genDoc(r, i%2 == 0, 5)
 	data := doc.Out.Bytes
